@@ -388,7 +388,7 @@ def run_workload(ctx, res, stats, wl, points=None):
         viol = classify(viol, wl, k)
         KILL_RECORDS.append({'workload': wl['name'], 'kind': kind, 'setup': wl['setup'], 'program': wl['program'], 'kill_n': kn,
                              'kill_event': k.get('kill_event'), 'events': k['events'], 'finished': [rec['index'] for rec in k['records']],
-                             'in_flight': k['started'], 'contents': [[x[0], x[1], x[2]] for x in info['snap']['items']] if info else None,
+                             'in_flight': k['started'], 'started_e0': k.get('started_e0'), 'started_depth': k.get('started_depth', 0), 'contents': [[x[0], x[1], x[2]] for x in info['snap']['items']] if info else None,
                              'unreferenced_files': info['debris'] if info else None})
         stats['kills'] += 1
         stats['kills_by_event'][k['kill_event']] = stats['kills_by_event'].get(k['kill_event'], 0) + 1
@@ -578,10 +578,49 @@ def new_stats():
 
 
 def correspondence(ctx, res, kill_records):
-    """HOOK for the model correspondence (integrator): apply `crash` of coq/model/Conc.v at the micro-step matching
-    record['events'] (the events executed before the kill; record['kill_event'] is the one that did not execute) and
-    compare the model's db/fs with record['contents'] / record['unreferenced_files']."""
-    return
+    """Trace correspondence for interrupted calls: the events the killed client executed since the start of the call
+    (or of the open transaction block) it was in must be a PREFIX of a path of the stage automaton of
+    coq/model/ConcTrace.v (`accepts_prefix`), i.e. the kill hit the client in a stage of the micro-step machine, which is
+    where `crash` (model/Conc.v) applies and what the crash theorems quantify over.  Calls finished before the kill are
+    complete paths (`accepts`)."""
+    import tracecorr
+    traces = []
+    for ri, rec in enumerate(kill_records):
+        if rec.get('kind') != 'cache' or rec.get('in_flight') is None:
+            continue
+        evs = rec['events']
+        e0 = rec.get('started_e0')
+        if e0 is None:
+            continue
+        prog = rec['program']
+        j = rec['in_flight']
+        op = prog[j]['op']
+        if op in tracecorr.SKIP_OPS:
+            continue
+        # the transaction still open at the kill (a block, if the call in flight is inside one)
+        open_from = None
+        for i, e in enumerate(evs):
+            if e == 'sql:BEGIN' and open_from is None:
+                open_from = i
+            elif e in ('sql:COMMIT', 'sql:ROLLBACK'):
+                open_from = None
+        in_block = rec.get('started_depth', 0) > 0 or op in concdrv.BLOCK_OPS
+        if in_block:
+            if open_from is None:
+                continue
+            part, early = evs[open_from:], True
+        else:
+            part, early = evs[e0:], False
+        tags = tracecorr.tags_from_shorts(part)
+        traces.append(((ri, rec['workload'], rec['kill_n'], op, part), tags, early, True))
+    bad, errors = tracecorr.check_traces('c07tr', traces)
+    for e in errors:
+        res.disagreements.append(fw.Violation('model-eval', 'stage automaton evaluation failed: ' + e[-300:], {}, 'correspondence'))
+    res.traces_validated += len(traces) - len(bad)
+    for t in bad[:3]:
+        res.disagreements.append(fw.Violation('stage_order', 'the events of the interrupted %s (workload %s, kill %d) are not a prefix of a path of the stage '
+                                              'machine: %s' % (t[0][3], t[0][1], t[0][2], t[0][4]), {'workload': t[0][1], 'kill_n': t[0][2], 'events': t[0][4], 'tags': t[1]},
+                                              'correspondence'))
 
 
 def run(ctx, big=False):
